@@ -319,6 +319,19 @@ def inst_map_overlap(blocks, kind, what):
         bnd = value if kind == "constant" else kind
         depth = {a: (d if a == 0 else 0) for a in range(rank)}
         boundary = {a: (bnd if a == 0 else "none") for a in range(rank)}
+        if what == "untrimmed":
+            # map_overlap(identity, ..., trim=False): what comes back is the overlapped array itself, halos included
+            node = w.space.make(OVm.MapOverlap, p.node, _ident, [depth], [boundary], False, True, {"dtype": "f8"},
+                                _symx_attrs=dict(_meta=np.empty((0,) * rank)))
+            m = w.fn(catalog.MT, "_materialize")(node, True)
+            dsk = catalog._layers(m)
+            whole, r = run_blocks(E, dsk, m._name, node.chunks, label="map_overlap-untrimmed", kernels=dict(_ident=_ident))
+            ref_node = w.fn("dask_array._overlap", "overlap")(w.fn(catalog.NC, "new_collection")(p.node), depth, boundary).expr
+            E.ensure("advertises-the-overlapped-chunks", EQ(tuple(map(tuple, node.chunks)), tuple(map(tuple, ref_node.chunks))))
+            m2 = w.fn(catalog.MT, "_materialize")(ref_node, True)
+            ref, _r2 = run_blocks(E, catalog._layers(m2), m2._name, ref_node.chunks, label="overlap")
+            same_array(E, whole, ref, label="untrimmed-is-the-overlapped-array")
+            return
         if what == "identity":
             node = w.space.make(OVm.MapOverlap, p.node, _ident, [depth], [boundary], True, True, {"dtype": "f8"},
                                 _symx_attrs=dict(_meta=np.empty((0,) * rank)))
@@ -371,6 +384,17 @@ def inst_map_overlap(blocks, kind, what):
         if what == "identity":
             got = da.map_overlap(lambda b: b, x, depth=depth, boundary=boundary, dtype="f8").compute(scheduler="sync")
             return dict(ok=bool(np.array_equal(got, data)), detail=f"chunks={cs} depth={d} kind={kind}")
+        if what == "untrimmed":
+            from dask_array._overlap import overlap as _ov
+
+            try:
+                y = da.map_overlap(lambda b: b, x, depth=depth, boundary=boundary, dtype="f8", trim=False)
+                got = y.compute(scheduler="sync")
+            except Exception as ex:
+                return dict(ok=False, detail=f"map_overlap(trim=False) raises {ex!r}"[:300])
+            want = _ov(x, depth, boundary).compute(scheduler="sync")
+            return dict(ok=bool(got.shape == y.shape and np.array_equal(got, want)), detail=f"chunks={cs} depth={d} kind={kind} advertised "
+                                                                                             f"{y.shape} computed {got.shape}")
         from dask_array._overlap import overlap as _ov
 
         y = _ov(x, depth, boundary)
@@ -552,6 +576,8 @@ def instances(tier):
         out.append(inst_map_overlap((2,), kind, "identity"))
         out.append(inst_map_overlap((2,), kind, "overlap"))
     out.append(inst_map_overlap((3,), "none", "identity"))
+    for kind in ("none", "periodic", "reflect"):
+        out.append(inst_map_overlap((2,), kind, "untrimmed"))
     out.append(inst_map_overlap((2, 2), "periodic", "identity"))
     if not q:
         for kind in ("none", "periodic", "reflect"):
